@@ -4,11 +4,11 @@ import json, os, re
 READY = True
 
 META = {
-    "technique": "Lean 4 proof (model of loader::safe_join built from the segment rules extracted from the source; PathBuf::push and Path::components with the PLATFORM as a parameter — separator set, main separator, drive prefixes: Unix and Windows instances, push's replace-on-absolute/prefix, keep-only-the-prefix-on-rooted and bare-drive branches; lexical normalisation; abstract directory tree; path_loader as a function of (configured base, file system at load time); candidate-list loaders; the name-keyed template store over arbitrary file-system histories) + exhaustive correspondence of the real safe_join with the Unix instance over the quantifier's segment alphabet + the Windows instance against CPython's ntpath + canary oracle on the real path_loader over a scratch tree through 13 entry points, Environment::templates, AutoReloader, a loader-lifecycle axis (incl. the kind of the base: directory, regular file, symlink, missing) + a syscall-level oracle (strace) over every entry point",
+    "technique": "Lean 4 proof (model of loader::safe_join built from the segment rules extracted from the source; PathBuf::push and Path::components with the PLATFORM as a parameter — separator set, main separator, drive prefixes: Unix and Windows instances, push's replace-on-absolute/prefix, keep-only-the-prefix-on-rooted and bare-drive branches; lexical normalisation; abstract directory tree; path_loader as a function of (configured base, file system at load time); candidate-list loaders; the name-keyed template store over arbitrary file-system histories) + exhaustive correspondence of the real safe_join with the Unix instance over the quantifier's segment alphabet + the Windows instance against CPython's ntpath + canary oracle on the real path_loader over a scratch tree through 13 entry points, Environment::templates, AutoReloader, a loader-lifecycle axis (incl. the kind of the base: directory, regular file, symlink, missing) + a syscall-level oracle (strace) over every entry point; session 4: the ENGINE'S ROUTES in the model (MJ/Model/PathRoutes.lean: Environment::get_template, State::get_template + join_template_path with an ARBITRARY path-join callback, include / import / from-import / extends, lists of include choices, over the name-keyed store) with every_loader_call_passes_through_safe_join, the routes tied row by row to regenerated call tables with ARGUMENT TEXT (C17_NAME_FLOW, C17_STMT_ROUTES, C17_WATCH_ARGS), the property's own statement C17_full over histories of link-free WORLDS (directory tree, cwd, file contents) proved for the model (C17_model) and C17_main with the two gaps as named hypotheses; a routes correspondence stream (recorder around the real path_loader vs Engine.loaderCalls) and an escapes-at-every-depth name axis (2..41 segments)",
     "category": "proof",
-    "text": "Kernel-checked theorems: (1) what is pushed is what was checked (checked_segments_are_pushed_components): on every platform whose separators are the split character or rejected by the extracted filter rules — proved for the Unix and the Windows separator sets — whenever safe_join answers a path, the filter looked at every piece of name.split('/'), the arguments of PathBuf::push are exactly those pieces, and the components of the result (the result split on EVERY separator of the platform) are the base's components followed by the non-empty pieces, one plain name each; drive prefix, root and literal text of the base are kept. Unix: no hypothesis left (unix_checked_are_pushed, safe_join_confined_unix; the Unix instance is the model compared with the real code, unix_instance_is_checked_model). Windows: holds for names without a drive-prefixed segment (safe_join_confined_windows_partial); a segment `X:…` passes the filter and push replaces the base (windows_drive_segment_replaces_base, C17_windows_counterexample — recorded as a known finding, Windows only). (2) Unix detail as before: the path has the base as literal prefix, components = base's ++ name's non-empty segments, none of which is '.', '..', hidden or contains '/' or '\\'; lexical normalisation keeps the base as prefix; on every directory tree without symlinks the path resolves to the base directory or beneath it; any '.', '..', hidden or backslash segment yields None; push's absolute-argument branch is unreachable. (3) The loader keeps the configured base verbatim (loader_base_is_configured); every path it hands to the file system and every content it returns is confined to the configured base in the file system of the load (loader_reads_confined, loader_found_confined); any loader that tries candidate NAMES through safe_join (suffix/index/alias fallbacks done right) stays confined (candidate_loader_found_confined, candidate_loader_reads_confined; path_loader is the single-candidate instance); with the name-keyed store in front, for EVERY history of file systems every answer and everything Environment::templates lists is what some snapshot held at safe_join(configured base, name) (loader_history_confined, …_after_clear). Ties: the segment rules are regenerated from loader.rs; safe_join's loop SHAPE is regenerated and checked (one split on the extracted separator, one filter whose atoms all look at the loop variable, one push of that same variable, nothing else: safe_join_loop_shape); path_loader's base binding, its fs:: calls, every file-system-vocabulary call and the mentions of path/base/name are regenerated (loader_model_matches_source); every function of minijinja, minijinja-contrib and minijinja-autoreload that mentions the file system or builds a path is regenerated and must be one of the modelled ones (path_producers_as_modelled); the engine's template-fetching call sites are regenerated (entry_sites_covered). Correspondence: real safe_join vs model byte for byte on every name over the segment alphabet for 13 spellings of the base plus targeted, disguised, shaped and noise names; real path_loader vs (model, disk answer at the joined path, store) through get_template, include, import, from-import, extends, include lists (name first / name after a missing choice), ignore-missing include, the documented join callback, State::get_template from a host function and from a host filter, includes in macros and in loader-backed templates, Environment::templates and AutoReloader, on a static tree and on 12 lifecycle scenarios x 10 spellings of the base; Lean Windows model vs CPython ntpath.join. Oracles: every returned content carries the marker of a file whose canonical path is beneath the canonical configured base (never a canary; nothing at all while the configured base is not a directory); under strace, between the sentinel probes bracketing a request — through EVERY one of the 13 routes in rotation plus the bare loader closure — the only path handed to the kernel is the one safe_join designates (opened once; twice for a twice-listed missing name) and nothing outside the base is opened. Names: the alphabet product; every canary by absolute, relative, rooted, climbing spelling; DISGUISED escaping spellings (each escaping kernel whose target canary exists x pads/NUL/zero-width/format characters before, after, inside the dot-dot; percent-, double-percent-, entity- and look-alike-encoded dots and separators incl. NFKC-equivalents; tokens a clean-up may cut off: drive, scheme, tilde; prefixes and suffixes) so that a check/use mismatch of any such family yields a canary; SHAPED spellings (long by repeated separators / by a/../ round trips, 6…260 leading empty segments, 10 segments deep, beyond NAME_MAX and PATH_MAX); Windows device names, drive, UNC, verbatim and device-namespace prefixes, alternate data streams as data; decorated namesakes of every canary.",
+    "text": "Kernel-checked theorems: (1) what is pushed is what was checked (checked_segments_are_pushed_components): on every platform whose separators are the split character or rejected by the extracted filter rules — proved for the Unix and the Windows separator sets — whenever safe_join answers a path, the filter looked at every piece of name.split('/'), the arguments of PathBuf::push are exactly those pieces, and the components of the result (the result split on EVERY separator of the platform) are the base's components followed by the non-empty pieces, one plain name each; drive prefix, root and literal text of the base are kept. Unix: no hypothesis left (unix_checked_are_pushed, safe_join_confined_unix; the Unix instance is the model compared with the real code, unix_instance_is_checked_model). Windows: holds for names without a drive-prefixed segment (safe_join_confined_windows_partial); a segment `X:…` passes the filter and push replaces the base (windows_drive_segment_replaces_base, C17_windows_counterexample — recorded as a known finding, Windows only). (2) Unix detail as before: the path has the base as literal prefix, components = base's ++ name's non-empty segments, none of which is '.', '..', hidden or contains '/' or '\\'; lexical normalisation keeps the base as prefix; on every directory tree without symlinks the path resolves to the base directory or beneath it; any '.', '..', hidden or backslash segment yields None; push's absolute-argument branch is unreachable. (3) The loader keeps the configured base verbatim (loader_base_is_configured); every path it hands to the file system and every content it returns is confined to the configured base in the file system of the load (loader_reads_confined, loader_found_confined); any loader that tries candidate NAMES through safe_join (suffix/index/alias fallbacks done right) stays confined (candidate_loader_found_confined, candidate_loader_reads_confined; path_loader is the single-candidate instance); with the name-keyed store in front, for EVERY history of file systems every answer and everything Environment::templates lists is what some snapshot held at safe_join(configured base, name) (loader_history_confined, …_after_clear). Ties: the segment rules are regenerated from loader.rs; safe_join's loop SHAPE is regenerated and checked (one split on the extracted separator, one filter whose atoms all look at the loop variable, one push of that same variable, nothing else: safe_join_loop_shape); path_loader's base binding, its fs:: calls, every file-system-vocabulary call and the mentions of path/base/name are regenerated (loader_model_matches_source); every function of minijinja, minijinja-contrib and minijinja-autoreload that mentions the file system or builds a path is regenerated and must be one of the modelled ones (path_producers_as_modelled); the engine's template-fetching call sites are regenerated (entry_sites_covered). Correspondence: real safe_join vs model byte for byte on every name over the segment alphabet for 13 spellings of the base plus targeted, disguised, shaped and noise names; real path_loader vs (model, disk answer at the joined path, store) through get_template, include, import, from-import, extends, include lists (name first / name after a missing choice), ignore-missing include, the documented join callback, State::get_template from a host function and from a host filter, includes in macros and in loader-backed templates, Environment::templates and AutoReloader, on a static tree and on 12 lifecycle scenarios x 10 spellings of the base; Lean Windows model vs CPython ntpath.join. Oracles: every returned content carries the marker of a file whose canonical path is beneath the canonical configured base (never a canary; nothing at all while the configured base is not a directory); under strace, between the sentinel probes bracketing a request — through EVERY one of the 13 routes in rotation plus the bare loader closure — the only path handed to the kernel is the one safe_join designates (opened once; twice for a twice-listed missing name) and nothing outside the base is opened. Names: the alphabet product; every canary by absolute, relative, rooted, climbing spelling; DISGUISED escaping spellings (each escaping kernel whose target canary exists x pads/NUL/zero-width/format characters before, after, inside the dot-dot; percent-, double-percent-, entity- and look-alike-encoded dots and separators incl. NFKC-equivalents; tokens a clean-up may cut off: drive, scheme, tilde; prefixes and suffixes) so that a check/use mismatch of any such family yields a canary; SHAPED spellings (long by repeated separators / by a/../ round trips, 6…260 leading empty segments, 10 segments deep, beyond NAME_MAX and PATH_MAX); Windows device names, drive, UNC, verbatim and device-namespace prefixes, alternate data streams as data; decorated namesakes of every canary. SESSION 4: (4) routes: the model Engine (store + loader + optional callback) serves Req.one entry name parent over the six entries and Req.choices (include lists: a missing choice is skipped, another failure ends the statement); every_loader_call_passes_through_safe_join: for EVERY engine state, callback (any function of the two names), request and file system, every path handed to the file system is safe_join(configured base, n) for a name n that request asked the store for, and is Confined; engine_history_confined: over any history of (file system, request) every source answered is what some snapshot held at such a path. (5) C17_full reads like the property: for every base, callback and history of (World, request) — a World is a directory tree without links, root, cwd and file contents; fs::read_to_string is path resolution by walking components — every source the engine answers is the content of a file IN OR BENEATH the directory the configured base designated in one of the worlds; proved for the model (C17_model). C17_main: for ANY implementation (black box: state, init, serve) that AnswersAsModel (gap 1: tied by the regenerated tables, validated by the streams) on histories where the OsWalksTree (gap 2: validated by canary and syscall oracles) the same holds; both hypotheses shown non-vacuous (the model satisfies gap 1, an implementation serving the unfiltered name does not). Ties added: name_flow_as_modelled (every call by which a name travels towards the loader — get_template, join_template_path, templates.get, the loader closure, the callback — with receiver, ARGUMENT TEXT and the binding of a variable argument is a row of a modelled route; each route ends in templates.get(name); a route has a join call exactly when Entry.joins; Include/Import/FromImport compile to Include -> perform_include, Extends to LoadBlocks -> load_blocks, called nowhere else), path_producers_classified (role and reason for every path-touching function of minijinja, -contrib, -autoreload: safe_join builds, path_loader is the ONLY reader, watch_path/unwatch_path hand the HOST's path to the notifier and nowhere else: C17_WATCH_ARGS). Streams added: rt — a FRESH environment per request whose loader is the real path_loader wrapped in a recorder, all 13 forms: the sequence of names the loader closure is called with and the answer class vs Engine.loaderCalls / Engine.serve of the Lean driver (incl. the documented callback docJoin in Lean), oracle: returned content is a file beneath the base (a further name asked of the loader is a correspondence disagreement, not a failing input); deep — names of 2..41 segments with the escaping piece at EVERY position (empties around one `..`; up to four real directories matched by extra `..`; an absolute canary path behind 0..41 pieces) through every form, the strace oracle and the routes stream, so a filter that looks at a window of the pieces only (first K, last K, all but K) yields a canary whatever K is.",
     "design_ref": "DESIGN.md §3 C17",
-    "level_note": "Trusted: Lean kernel; hand transcription of std's PathBuf::_push / Path::components / parse_drive into MJ/Model/Path.lean (Unix, validated byte-for-byte against the real functions, also outside the region safe_join reaches) and MJ/Model/PathPlat.lean (platform-generic; its Unix instance is PROVED equal to the validated one, its Windows instance is validated against CPython's ntpath.join on the region where the two libraries define the same function — not against a Windows build of std, which cannot run here; the verbatim-prefix branch of push is not modelled, a Windows base is assumed not to be verbatim); the loop of safe_join is a transcription whose rules AND shape are extracted; the step from 'components are plain names' to 'the OS resolves beneath the base' is proved on an abstract tree without symlinks (the property excludes symlinks) and validated on a real tree and at syscall level; Loader.load / Env.get are three-line transcriptions of path_loader's closure and LoaderStore::get, tied by the extracted shape table and validated on every stream; State::get_template/join_template_path are validated by the oracle streams (get_template_passes_name is about a three-line model; the call sites are tied by entry_sites_covered). The real code is exercised on Linux only. minijinja-cli has its own loader (no safe_join, reads arbitrary paths by design) and minijinja-embed reads the disk at build time only: both are outside this property.",
+    "level_note": "MOVED FROM VALIDATED TO PROVED in session 4 (the session-3 worker was interrupted, nothing of it survived): State::get_template / join_template_path / the path-join callback / perform_include over choices / load_blocks / Environment::get_template were a three-line abstraction (joinTemplatePath) validated by the oracle streams; they are now the Engine model with theorems for every request, callback and history (every_loader_call_passes_through_safe_join, engine_history_confined) and a row-by-row regenerated tie INCLUDING ARGUMENTS (name_flow_as_modelled; before: entry_sites_covered listed call sites only), executed against the real engine by the rt stream. The step from Confined (components) to the property's words (content of a file beneath the base directory) is now a theorem over worlds (world_read_confined, C17_model : C17_full) instead of prose; what remains unproved about the CODE is stated as the two hypotheses of C17_main (AnswersAsModel, OsWalksTree). watch_path/unwatch_path: classified with a reason and tied (path_producers_classified, C17_WATCH_ARGS). STILL ONLY VALIDATED / TRUSTED: Lean kernel; hand transcription of std's PathBuf::_push / Path::components / parse_drive into MJ/Model/Path.lean (Unix, validated byte-for-byte against the real functions, also outside the region safe_join reaches) and MJ/Model/PathPlat.lean (platform-generic; its Unix instance is PROVED equal to the validated one, its Windows instance is validated against CPython's ntpath.join on the region where the two libraries define the same function — not against a Windows build of std, which cannot run here; the verbatim-prefix branch of push is not modelled, a Windows base is assumed not to be verbatim); the loop of safe_join is a transcription whose rules AND shape are extracted; the step from 'components are plain names' to 'the OS resolves beneath the base' is proved on an abstract tree without symlinks (the property excludes symlinks) and validated on a real tree and at syscall level; Loader.load / Env.get are three-line transcriptions of path_loader's closure and LoaderStore::get, tied by the extracted shape table and validated on every stream; Engine.fetch / includeList / storeName are transcriptions of State::get_template, perform_include, load_blocks and join_template_path (AnswersAsModel is a HYPOTHESIS of C17_main, not a theorem about Rust: tied by name_flow_as_modelled + entry_sites_covered, validated by rt/ld/lc/tr); what rendering a fetched template does afterwards (its own includes) is a further request of the history, not modelled as recursion; Environment::add_template / template_from_str sources never reach the loader and are outside the model. The real code is exercised on Linux only. minijinja-cli has its own loader (no safe_join, reads arbitrary paths by design) and minijinja-embed reads the disk at build time only: both are outside this property.",
 }
 
 PARENT_NAME = "a/a/drv"      # name of the including template in the join-callback stream
@@ -210,6 +210,7 @@ class Ctx:
         self.got = {}           # (variant, name) -> result of the `get` form in the ld stream
         self.tl = {}            # variant -> {name: result} as listed by Environment::templates
         self.wnames = []        # names for the Windows-model stream
+        self.rt = []            # (case, impl) of the routes stream
 
 
 def broken(r, key, msg, cap=3):
@@ -249,7 +250,7 @@ def check_lines(r, ctx, lines, model):
             r.count(case, nontrivial_name(name))
             if f[1] in ("b", "/b") and len(name) < 300:
                 ctx.wnames.append(name)
-            r.hist["segments"][min(name.count("/") + 1, 9)] += 1
+            r.hist["segments"][min(name.count("/") + 1, 42)] += 1
             r.hist["base"][repr(base) if not (ctx.tree and ctx.tree in base) else repr(base.replace(ctx.tree, "<tree>"))] += 1
             r.hist["safe_join"][impl.split(" ")[0]] += 1
             mf = m.split(" ") if m is not None else None
@@ -361,6 +362,8 @@ def check_lines(r, ctx, lines, model):
         elif stream == "tl":
             r.count(case, True)
             ctx.tl.setdefault(f[1], {})[f[2]] = impl
+        elif stream == "rt":
+            ctx.rt.append((case, impl))
         else:
             r.broken.append(f"unknown harness line {line[:80]!r}")
     if model is not None and mi != len(model):
@@ -512,6 +515,89 @@ def check_lifecycle(r, ctx):
     ctx.lc, ctx.lct, ctx.lcclear = {}, {}, set()
 
 
+# form of the harness -> (route of the Lean model, path-join callback installed?)
+RT_ROUTE = {"get": "env", "include": "include", "import": "import", "from": "from", "extends": "extends",
+            "joincb": "include", "fn": "state", "filter": "state", "macro": "include", "incim": "include"}
+
+
+def check_routes(r, ctx):
+    """the routes stream: which names reach the LOADER CLOSURE (a recorder around the real
+    path_loader, fresh environment per request) over each of the 13 forms, against the Lean model
+    of the routes (`Engine.loaderCalls` / `Engine.serve`: Environment::get_template,
+    State::get_template + join_template_path with and without the documented callback, include,
+    import, from-import, extends, lists of include choices); oracle: what the engine returns is
+    a file beneath the base, never a canary."""
+    if not ctx.rt:
+        return
+    drv = pct_py("<drv>")
+    jobs, lines = [], []
+    for case, impl in ctx.rt:
+        f = case.split(" ")
+        variant, form, name = f[1], f[2], f[3]
+        calls, res, dtxt = impl.split("\t")
+        cands = {}
+        for tok in dtxt.split(" "):
+            c, hp, disk = tok.split(",")
+            cands[c] = (hp, disk)
+        r.count(case, nontrivial_name(unpct(name)))
+        r.hist["route-form"][form] += 1
+        calls = calls.split(",") if calls else []
+        r.hist["loader-calls-per-request"][len(calls)] += 1
+        # (no oracle on the names themselves: an engine that asks the loader for a further name — a suffix
+        # fallback, say — keeps the property as long as that name goes through safe_join; it shows as a
+        # correspondence disagreement below, not as a failing input.)  The oracle of this stream is the
+        # one the property states: content returned is a file beneath the base.
+        if res.startswith("f:"):
+            base_canon = os.path.realpath(ctx.bases["abs"])
+            for mk in res[2:].split("+"):
+                kp = mk.split(":", 1)
+                if len(kp) == 2 and kp[0] == "C":
+                    r.oracle_failure(case, f"{form}: the engine returned the canary {untilde(kp[1])!r} (base {base_canon!r}); the loader closure had been called with {[unpct(c) for c in calls][:3]}", f"route:{form}:canary")
+                elif len(kp) == 2 and kp[0] == "B" and not untilde(kp[1]).startswith(base_canon + "/"):
+                    r.oracle_failure(case, f"{form}: the engine returned content that is not a file beneath the base: {mk!r}", f"route:{form}:outside-base")
+        if res.startswith("panic"):
+            r.oracle_failure(case, f"{form}: panic {res!r}", f"route:{form}:panic")
+            continue
+        # the model's requests
+        if form in RT_ROUTE:
+            parent = pct_py(PARENT_NAME) if form == "joincb" else drv
+            reqs = [f"o,{RT_ROUTE[form]},{name},{parent}"]
+        elif form == "inclist":
+            reqs = [f"c,{drv},{name},{name}"]
+        elif form == "inclist2":
+            reqs = [f"c,{drv},mj17-nope,{name}"]
+        elif form == "nested":
+            reqs = [f"o,include,inc,{drv}"]
+            if cands["inc"][1] == "+":
+                reqs.append(f"o,include,{name},inc")
+        else:
+            broken(r, "unknown-form", f"routes stream: unknown form {form!r}")
+            continue
+        snap = [f"s,{hp},{'x' if disk == '+' else disk}" for hp, disk in cands.values() if hp]
+        base = pct_py(ctx.bases[variant])
+        lines.append(" ".join(["route", base, "1" if form == "joincb" else "0"] + reqs + snap))
+        jobs.append((case, form, name, calls, res))
+    model = r.driver("drive_c17", "\n".join(lines) + "\n")
+    if model is None or len(model) != len(lines) or any(m == "bad-case" for m in model):
+        r.broken.append("model driver did not answer the routes cases")
+        ctx.rt = []
+        return
+    for (case, form, name, calls, res), m in zip(jobs, model):
+        ans, _, mcalls = m.partition(" | ")
+        mcalls = mcalls.split(",") if mcalls else []
+        if mcalls != calls:
+            r.model_disagreement(case + " [loader calls]", f"the loader closure was called with {calls[:4]}", f"model (Engine.loaderCalls): {mcalls[:4]}")
+        want = ans.split(",")[-1]
+        if unpct(name) == "inc" and form != "nested":
+            continue        # the helper template includes itself: a recursion error, not a loader answer
+        got = "f" if res.startswith("f:") else ("e" if res.startswith("e:") else res)
+        if got != want:
+            r.model_disagreement(case + " [answer]", f"engine answered {res!r}", f"model (Engine.serve): {want!r}")
+    if jobs:
+        r.sample({"case": jobs[0][0], "loader_calls": jobs[0][3], "result": jobs[0][4]})
+    ctx.rt = []
+
+
 _hexstr = re.compile(r'"((?:\\x[0-9a-f]{2})*)"')
 
 
@@ -617,12 +703,12 @@ def run(r):
               "base is a regular file / file later replaced by a directory) x 10 spellings of the base (incl. trailing '..', doubled leading "
               "slash, symlink to the base) x 46 names x 15 forms (the 13 + AutoReloader with and without reload), canaries relative to every "
               "working directory; Windows-model stream: every name that met the disk-free base 'b' or '/b' against 12 Windows bases, Lean model vs ntpath; "
-              "each name against the scratch tree's base (absolute spelling) and one of 12 other bases (4 more spellings of the "
+              "deep names (2..41 segments, the escaping piece at every position: empties, real directories + extra `..`, absolute canary tails) in the targeted set; routes stream: every targeted / lifecycle / 1..2-segment alphabet / noise name through a fresh recording environment, the first 1000 (thorough: 6000) names over all 13 forms and the others over one form in rotation; each name against the scratch tree's base (absolute spelling) and one of 12 other bases (4 more spellings of the "
               "scratch base, 8 disk-free bases) in rotation; a name is non-trivial when it contains '/', '.' or '\\\\'")
     r.assumptions = ["the real code runs with Unix path semantics; Windows is covered by the model only (validated against CPython's ntpath, verbatim bases excluded); symbolic links inside the base are out of scope per the statement",
                      "the syscall oracle needs strace (skipped and recorded in the evidence when it is not installed)",
-                     "names longer than 5 segments behave as the model predicts (proved for the model for every name and base)"]
-    r.regen_tables(needed=["C17_SAFE_JOIN_RULES", "C17_PATH_LOADER_SHAPE", "C17_LOADER_ENTRY_SITES", "C17_SAFE_JOIN_LOOP", "C17_PATH_PRODUCERS"])
+                     "alphabet names longer than 5 segments behave as the model predicts (proved for the model for every name and base; exercised up to 41 segments by the deep axis, 260 by the shaped axis)"]
+    r.regen_tables(needed=["C17_SAFE_JOIN_RULES", "C17_PATH_LOADER_SHAPE", "C17_LOADER_ENTRY_SITES", "C17_SAFE_JOIN_LOOP", "C17_PATH_PRODUCERS", "C17_NAME_FLOW", "C17_STMT_ROUTES", "C17_WATCH_ARGS"])
     r.lean_prove("MJ.Props.C17", "MJ/Audit/C17.lean", extra_targets=["drive_c17"])
     exe = r.cargo_build("c17")
     if exe is None:
@@ -646,6 +732,7 @@ def run(r):
         check_lines(r, ctx, lines, model)
         check_templates_listing(r, ctx)
         check_lifecycle(r, ctx)
+        check_routes(r, ctx)
         check_windows_model(r, ctx.wnames)
         ctx.wnames = []
         if n > 1:
@@ -681,6 +768,9 @@ def replay(r, path):
             mcase = f"sj {bases.get(f[1], '')} {f[2]}"
             model = r.driver("drive_c17", mcase + "\n")
             print("model:", mcase, "->", model[0] if model else None)
+        elif f[0] == "rt":
+            print("(routes stream: `names the loader closure was called with`<TAB><result><TAB><candidate name>,<hook path>,<disk> …)")
+            continue
         elif f[0] == "wsj":
             model = r.driver("drive_c17", case + "\n")
             print("Lean windows model:", model[0] if model else None)
